@@ -60,6 +60,8 @@ impl AwakeFlag {
     /// Mark the driver as awake by overwriting the flag byte with `AWAKE`.
     /// This intentionally clears any previously set `NOTIFIED` flag.
     pub fn set(&self) {
+        #[cfg(compio_verif)]
+        crate::verif::emit(crate::verif::AWAKE_BEGIN, self as *const _ as u64, 0);
         self.0.store(AWAKE, Ordering::Release);
         #[cfg(compio_verif)]
         crate::verif::emit(crate::verif::AWAKE_SET, self as *const _ as u64, -1);
@@ -82,6 +84,7 @@ impl AwakeFlag {
     /// `reset`, recording the value it replaced.
     #[cfg(compio_verif)]
     pub fn reset(&self) -> bool {
+        crate::verif::emit(crate::verif::AWAKE_BEGIN, self as *const _ as u64, 1);
         let prior = self.0.swap(IDLE, Ordering::AcqRel);
         crate::verif::emit(
             crate::verif::AWAKE_RESET,
@@ -94,6 +97,7 @@ impl AwakeFlag {
     /// `wake`, recording the value it found.
     #[cfg(compio_verif)]
     pub fn wake(&self) -> bool {
+        crate::verif::emit(crate::verif::AWAKE_BEGIN, self as *const _ as u64, 2);
         let prior = self.0.fetch_or(NOTIFIED, Ordering::AcqRel);
         crate::verif::emit(
             crate::verif::AWAKE_WAKE,
